@@ -60,7 +60,7 @@ def model_ok_text(s):
     return True
 
 
-def run_model(lines, timeout=600, chunk=None):
+def run_model(lines, timeout=int(os.environ.get("VERIF_MODEL_TIMEOUT", "300")), chunk=None):
     """Send request lines to the compiled model driver; returns one response line per request."""
     if not os.path.exists(DRIVER):
         raise ModelError("model driver not built: " + DRIVER)
@@ -136,3 +136,30 @@ def pmap(fn, items, procs=16, chunksize=None):
     ctx = mp.get_context("fork")
     with ctx.Pool(procs) as pool:
         return pool.map(fn, items, chunksize or max(1, len(items) // (procs * 8)))
+
+
+def run_killable(fn, arg, budget_s):
+    """fn(arg) in a forked child that is killed after budget_s seconds; None when it had to be killed.
+    (A signal-based budget does not interrupt a single call into C code, e.g. a catastrophic regex match.)"""
+    import multiprocessing as mp
+    ctx = mp.get_context("fork")
+    recv, send = ctx.Pipe(False)
+
+    def target():
+        try:
+            send.send(fn(arg))
+        except BaseException as e:  # noqa
+            send.send(("__error__", repr(e)))
+
+    p = ctx.Process(target=target)
+    p.start()
+    try:
+        if recv.poll(budget_s):
+            r = recv.recv()
+            p.join(5)
+            return r
+        return None
+    finally:
+        if p.is_alive():
+            p.kill()
+            p.join()
